@@ -28,4 +28,8 @@ var VerifShim = map[string]any{
 	"G1Jac.fromJacExtended": func(p *G1Jac, q *g1JacExtended) *G1Jac { return p.fromJacExtended(q) },
 	"G1Jac.unsafeFromJacExtended": func(p *G1Jac, q *g1JacExtended) *G1Jac { return p.unsafeFromJacExtended(q) },
 	"G1Affine.fromJacExtended": func(p *G1Affine, q *g1JacExtended) *G1Affine { return p.fromJacExtended(q) },
+	"fn._innerMsmG1": _innerMsmG1,
+	"fn.partitionScalars": partitionScalars,
+	"fn.computeNbChunks": computeNbChunks,
+	"fn.lastC": lastC,
 }
